@@ -20,12 +20,15 @@ import D2V.Model.GlobSem
                                  `C12_cx_keyword_case`: the pinned code matches `Shape`)
   * `no_self_edge`, `glob_edges_complete`  a connection glob connects exactly the pairs of distinct matches
 
-  * `C12_glob_is_expansion_partial` (`Model/GlobSem.lean`: one block, attribute globs, any matcher, no deletions —
-                                 decidable hypothesis `noDel`) the compiler's bookkeeping (`appliedFields`, application
+  * `C12_glob_is_expansion_partial` (`Model/GlobSem.lean`: one block, attribute globs, any matcher; decidable
+                                 hypotheses `noDel` — no deletions —, `noLabelGlob` — no glob assigns a label — and
+                                 `freshGlobs` — no glob declaration is repeated verbatim) the compiler's bookkeeping (`appliedFields`, application
                                  at the glob's declaration, lazy pass over all active globs after each creation)
                                  computes exactly the board of the expanded program; the invariant is "a glob's applied
                                  set = the existing objects it matches"
   * `C12_cx_redeclared_after_null`  … which deletions break: `*.k: v; d; d: null; d` leaves `d` unglobbed
+  * `C12_cx_label_first_glob_wins`  … and label globs too: of two globs labelling a later object the first wins
+  * `C12_cx_duplicate_glob`         … and verbatim repetitions: the second `*.shape: circle` does not override
 
   Beyond that fragment (nested blocks, `**`, map-valued globs, connection globs) the clause "a glob acts like its
   expansion, also on later targets" is evaluated on the real compiler (compile p = compile (expand p), `expand`
@@ -578,25 +581,29 @@ theorem targets_new (g : G) (ns : List String) (n : String) (hn : n ∉ ns)
   rw [h1]
   by_cases hm : m g.pat n = true <;> simp [hm, hna]
 
-theorem lazyRun_new : ∀ (gs : List G) (c : Content) (ns : List String) (n : String),
+theorem lazyRun_new (prim : List String) : ∀ (gs : List G) (c : Content) (ns : List String) (n : String),
     names c = ns ++ [n] → n ∉ ns →
     (∀ g ∈ gs, ∀ a ∈ g.applied, a ∈ ns) → (∀ g ∈ gs, ∀ a ∈ ns, m g.pat a = true → a ∈ g.applied) →
-    lazyRun m gs c = (markNew m n gs, applyOps c (lazyOps m (spec gs) n))
-  | [], c, ns, n, _, _, _, _ => by simp [lazyRun, markNew, lazyOps, spec, applyOps]
-  | g :: rest, c, ns, n, hc, hn, hsub, hall => by
+    (∀ g ∈ gs, g.key ≠ "Label") →
+    lazyRun m prim gs c = (markNew m n gs, applyOps c (lazyOps m (spec gs) n))
+  | [], c, ns, n, _, _, _, _, _ => by simp [lazyRun, markNew, lazyOps, spec, applyOps]
+  | g :: rest, c, ns, n, hc, hn, hsub, hall, hkey => by
     have ht := targets_new m g ns n hn (hsub g List.mem_cons_self) (hall g List.mem_cons_self)
-    simp only [lazyRun, applyG, hc, ht]
+    have hk : (g.key == "Label") = false := by simpa using hkey g List.mem_cons_self
+    simp only [lazyRun, applyG, hc, ht, if_true, lazySet, hk, Bool.false_and, Bool.false_eq_true, if_false]
     by_cases hm : m g.pat n = true
     · simp only [hm, if_true, List.foldl_cons, List.foldl_nil]
       have hc' : names (applyOp c (.set n g.key g.val)) = ns ++ [n] := by
         rw [names_set_existing c n g.key g.val (by rw [hc]; simp), hc]
-      have ih := lazyRun_new rest (applyOp c (.set n g.key g.val)) ns n hc' hn
+      have ih := lazyRun_new prim rest (applyOp c (.set n g.key g.val)) ns n hc' hn
         (fun g' hg' => hsub g' (List.mem_cons_of_mem _ hg')) (fun g' hg' => hall g' (List.mem_cons_of_mem _ hg'))
+        (fun g' hg' => hkey g' (List.mem_cons_of_mem _ hg'))
       rw [ih]
       simp [markNew, hm, lazyOps, spec, applyOps]
     · simp only [hm, Bool.false_eq_true, if_false, List.foldl_nil, List.append_nil]
-      have ih := lazyRun_new rest c ns n hc hn
+      have ih := lazyRun_new prim rest c ns n hc hn
         (fun g' hg' => hsub g' (List.mem_cons_of_mem _ hg')) (fun g' hg' => hall g' (List.mem_cons_of_mem _ hg'))
+        (fun g' hg' => hkey g' (List.mem_cons_of_mem _ hg'))
       rw [ih]
       simp [markNew, hm, lazyOps, spec]
 
@@ -606,10 +613,11 @@ structure Inv (st : St) (x : XSt) : Prop where
   globs_eq : spec st.gs = x.gs
   applied_sub : ∀ g ∈ st.gs, ∀ a ∈ g.applied, a ∈ x.ns
   applied_all : ∀ g ∈ st.gs, ∀ a ∈ x.ns, m g.pat a = true → a ∈ g.applied
+  keys : ∀ g ∈ st.gs, g.key ≠ "Label"
 
-theorem inv_markNew {st : St} {x : XSt} (h : Inv m st x) (n : String) (c' : Content)
+theorem inv_markNew {st : St} {x : XSt} (h : Inv m st x) (n : String) (c' : Content) (prim : List String)
     (hc' : names c' = x.ns ++ [n]) :
-    Inv m { c := c', gs := markNew m n st.gs } { x with ns := x.ns ++ [n] } where
+    Inv m { c := c', gs := markNew m n st.gs, prim := prim } { x with ns := x.ns ++ [n] } where
   names_eq := hc'
   globs_eq := by simp only [spec_markNew]; exact h.globs_eq
   applied_sub := by
@@ -639,6 +647,12 @@ theorem inv_markNew {st : St} {x : XSt} (h : Inv m st x) (n : String) (c' : Cont
       rcases ha with ha | ha
       · exact h.applied_all g0 hg0 a ha hma
       · subst ha; exact absurd hma hm
+  keys := by
+    intro g hg
+    simp only [markNew, List.mem_map] at hg
+    obtain ⟨g0, hg0, rfl⟩ := hg
+    have := h.keys g0 hg0
+    split <;> exact this
 
 theorem names_applyOps_lazy (c : Content) (gs : List (String × String × String)) (n : String) (hn : n ∈ names c) :
     names (applyOps c (lazyOps m gs n)) = names c := by
@@ -654,8 +668,21 @@ theorem names_applyOps_lazy (c : Content) (gs : List (String × String × String
       rw [this, h1]
     · exact ih c hn
 
+theorem reuse_none (prim : List String) (p k v : String) : ∀ (gs : List G) (c : Content),
+    (p, k, v) ∉ spec gs → reuse m prim p k v gs c = none
+  | [], _, _ => rfl
+  | g :: rest, c, h => by
+    simp only [spec, List.map_cons, List.mem_cons, not_or] at h
+    have hne : ¬ (g.pat == p && g.key == k && g.val == v) = true := by
+      intro hh
+      simp only [Bool.and_eq_true, beq_iff_eq] at hh
+      exact h.1 (by rw [hh.1.1, hh.1.2, hh.2])
+    simp only [reuse, hne, Bool.false_eq_true, if_false]
+    rw [reuse_none prim p k v rest c (by simpa [spec] using h.2)]
+
 /-- one declaration: the compiler's step is the reference's explicit declarations, and the invariant is kept -/
-theorem step_sim (st : St) (x : XSt) (s : GStmt) (h : Inv m st x) (hs : ∀ n, s ≠ .del n) :
+theorem step_sim (st : St) (x : XSt) (s : GStmt) (h : Inv m st x) (hs : ∀ n, s ≠ .del n)
+    (hl : ∀ p k v, s = .glob p k v → k ≠ "Label") (hf : ∀ p k v, s = .glob p k v → (p, k, v) ∉ x.gs) :
     (step m st s).c = applyOps st.c (xstep m x s).1 ∧ Inv m (step m st s) (xstep m x s).2 := by
   have hhas : ∀ n, st.c.has n = decide (n ∈ x.ns) := fun n => by
     rw [has_eq_contains, h.names_eq]; simp
@@ -667,7 +694,7 @@ theorem step_sim (st : St) (x : XSt) (s : GStmt) (h : Inv m st x) (hs : ∀ n, s
     · have hn' : n ∉ x.ns := hn
       have hc1 : names (applyOp st.c (.decl n)) = x.ns ++ [n] := by
         rw [names_decl_new _ _ (by rw [h.names_eq]; exact hn'), h.names_eq]
-      have hl := lazyRun_new m st.gs _ x.ns n hc1 hn' h.applied_sub h.applied_all
+      have hl := lazyRun_new m (n :: st.prim) st.gs _ x.ns n hc1 hn' h.applied_sub h.applied_all h.keys
       simp only [step, xstep, hhas, hn, decide_false, decide_true, List.contains_eq_mem, Bool.false_eq_true, if_false, hl, h.globs_eq]
       refine ⟨by simp [applyOps], ?_⟩
       apply inv_markNew m h
@@ -678,11 +705,12 @@ theorem step_sim (st : St) (x : XSt) (s : GStmt) (h : Inv m st x) (hs : ∀ n, s
       simp only [step, xstep, hhas, hn, decide_true, List.contains_eq_mem, if_true]
       refine ⟨by simp [applyOps], ?_⟩
       exact { names_eq := by simp only []; rw [names_set_existing _ _ _ _ hmem, h.names_eq]
-              globs_eq := h.globs_eq, applied_sub := h.applied_sub, applied_all := h.applied_all }
+              globs_eq := h.globs_eq, applied_sub := h.applied_sub, applied_all := h.applied_all, keys := h.keys }
     · have hn' : n ∉ x.ns := hn
       have hc1 : names (applyOp st.c (.decl n)) = x.ns ++ [n] := by
         rw [names_decl_new _ _ (by rw [h.names_eq]; exact hn'), h.names_eq]
-      have hl := lazyRun_new m st.gs _ x.ns n hc1 hn' h.applied_sub h.applied_all
+      have hl := lazyRun_new m (if k == "Label" then n :: st.prim else st.prim) st.gs _ x.ns n hc1 hn' h.applied_sub
+        h.applied_all h.keys
       simp only [step, xstep, hhas, hn, decide_false, List.contains_eq_mem, Bool.false_eq_true, if_false, hl, h.globs_eq]
       refine ⟨by simp [applyOps, List.foldl_append], ?_⟩
       apply inv_markNew m h
@@ -690,7 +718,9 @@ theorem step_sim (st : St) (x : XSt) (s : GStmt) (h : Inv m st x) (hs : ∀ n, s
         rw [names_applyOps_lazy m _ _ _ (by rw [hc1]; simp), hc1]
       rw [names_set_existing _ _ _ _ (by rw [h2]; simp), h2]
   | glob p k v =>
-    simp only [step, xstep, applyG, List.contains_nil, Bool.not_false, Bool.and_true, List.nil_append, h.names_eq]
+    have hnone := reuse_none m st.prim p k v st.gs st.c (by rw [h.globs_eq]; exact hf p k v rfl)
+    simp only [step, hnone, xstep, applyG, List.contains_nil, Bool.not_false, Bool.and_true, List.nil_append, h.names_eq,
+      Bool.false_eq_true, if_false]
     have hts : ∀ t ∈ x.ns.filter (fun n => m p n), t ∈ names st.c := by
       intro t ht; rw [h.names_eq]; exact (List.mem_filter.mp ht).1
     refine ⟨foldl_sets k v _ _, ?_⟩
@@ -710,28 +740,53 @@ theorem step_sim (st : St) (x : XSt) (s : GStmt) (h : Inv m st x) (hs : ∀ n, s
         simp only [List.mem_append, List.mem_singleton] at hg
         rcases hg with hg | hg
         · exact h.applied_all g hg a ha hma
-        · subst hg; exact List.mem_filter.mpr ⟨ha, hma⟩ }
+        · subst hg; exact List.mem_filter.mpr ⟨ha, hma⟩
+      keys := by
+        intro g hg
+        simp only [List.mem_append, List.mem_singleton] at hg
+        rcases hg with hg | hg
+        · exact h.keys g hg
+        · subst hg; exact hl p k v rfl }
 
-theorem run_sim : ∀ (p : List GStmt) (st : St) (x : XSt), Inv m st x → noDel p = true →
+theorem xstep_gs (x : XSt) (s : GStmt) :
+    (xstep m x s).2.gs = match s with | .glob p k v => x.gs ++ [(p, k, v)] | _ => x.gs := by
+  cases s <;> simp only [xstep] <;> (try split) <;> rfl
+
+theorem run_sim : ∀ (p : List GStmt) (st : St) (x : XSt), Inv m st x → noDel p = true → noLabelGlob p = true →
+    freshGlobs x.gs p = true →
     (p.foldl (step m) st).c = applyOps st.c (expand m x p)
-  | [], st, x, _, _ => by simp [expand, applyOps]
-  | s :: rest, st, x, h, hd => by
+  | [], st, x, _, _, _, _ => by simp [expand, applyOps]
+  | s :: rest, st, x, h, hd, hlg, hfr => by
+    have hf : ∀ p k v, s = .glob p k v → (p, k, v) ∉ x.gs := by
+      intro p k v hs; subst hs
+      simp only [freshGlobs, Bool.and_eq_true, Bool.not_eq_true', List.contains_eq_mem, decide_eq_false_iff_not] at hfr
+      exact hfr.1
+    have hfrest : freshGlobs (xstep m x s).2.gs rest = true := by
+      rw [xstep_gs]
+      cases s <;> simp_all [freshGlobs]
+    have hl : ∀ p k v, s = .glob p k v → k ≠ "Label" := by
+      intro p k v hs; subst hs
+      simp only [noLabelGlob, Bool.and_eq_true, bne_iff_ne, ne_eq] at hlg
+      exact hlg.1
+    have hlrest : noLabelGlob rest = true := by
+      cases s <;> simp_all [noLabelGlob]
     have hs : ∀ n, s ≠ .del n := by
       intro n hsn; subst hsn; simp [noDel] at hd
     have hrest : noDel rest = true := by
       cases s <;> simp_all [noDel]
-    obtain ⟨hc, hi⟩ := step_sim m st x s h hs
+    obtain ⟨hc, hi⟩ := step_sim m st x s h hs hl hf
     simp only [List.foldl_cons, expand]
-    rw [run_sim rest _ _ hi hrest, hc]
+    rw [run_sim rest _ _ hi hrest hlrest hfrest, hc]
     simp [applyOps, List.foldl_append]
 
 /-- **C12_glob_is_expansion (partial: one block, attribute globs, no deletions)** — the operational semantics with
     applied-set bookkeeping and lazy re-application computes exactly the board of the expanded program -/
-theorem C12_glob_is_expansion_partial (p : List GStmt) (hd : noDel p = true) :
+theorem C12_glob_is_expansion_partial (p : List GStmt) (hd : noDel p = true) (hl : noLabelGlob p = true)
+    (hf : freshGlobs [] p = true) :
     (run m p).c = applyOps [] (expand m {} p) := by
   have h0 : Inv m {} {} :=
-    ⟨rfl, rfl, fun g hg => absurd hg (by simp), fun g hg => absurd hg (by simp)⟩
-  simpa [run] using run_sim m p {} {} h0 hd
+    ⟨rfl, rfl, fun g hg => absurd hg (by simp), fun g hg => absurd hg (by simp), fun g hg => absurd hg (by simp)⟩
+  simpa [run] using run_sim m p {} {} h0 hd hl hf
 
 /-! the excluded region is a real counterexample: after `d: null` the re-declared `d` is not globbed again -/
 def mAll : String → String → Bool := fun _ _ => true
@@ -742,6 +797,24 @@ theorem C12_cx_redeclared_after_null :
       [("d", [("style.Opacity", "0.3")])] := by
   decide
 
-example : noDel [GStmt.glob "*" "k" "v", .decl "d", .set "e" "k" "w"] = true := by decide
+/-- the other excluded region: of two globs that give a later object a label the first wins (`*: L2; a*: L4; ax`
+    gives `L2`), while source order says the second -/
+theorem C12_cx_label_first_glob_wins :
+    (run mAll [.glob "*" "Label" "L2", .glob "a*" "Label" "L4", .decl "ax"]).c = [("ax", [("Label", "L2")])] ∧
+    applyOps [] (expand mAll {} [.glob "*" "Label" "L2", .glob "a*" "Label" "L4", .decl "ax"]) =
+      [("ax", [("Label", "L4")])] := by
+  decide
+
+/-- third excluded region: a repeated glob declaration is not applied at its own position -/
+theorem C12_cx_duplicate_glob :
+    (run mAll [.decl "x", .glob "*" "Shape" "circle", .set "x" "Shape" "square", .glob "*" "Shape" "circle"]).c =
+      [("x", [("Shape", "square")])] ∧
+    applyOps [] (expand mAll {} [.decl "x", .glob "*" "Shape" "circle", .set "x" "Shape" "square",
+      .glob "*" "Shape" "circle"]) = [("x", [("Shape", "circle")])] := by
+  decide
+
+example : noDel [GStmt.glob "*" "k" "v", .decl "d", .set "e" "k" "w"] = true ∧
+    noLabelGlob [GStmt.glob "*" "k" "v", .decl "d", .set "e" "k" "w"] = true ∧
+    freshGlobs [] [GStmt.glob "*" "k" "v", .decl "d", .set "e" "k" "w"] = true := by decide
 
 end D2V.GlobSem
